@@ -269,12 +269,15 @@ def _work(chunk):
     out = []
     n = 0
     for what, impl, case in chunk:
-        if what == 'post':
-            run_post_case(impl, case, out)
-        elif what == 'ws':
-            run_ws_case(impl, case, out)
-        else:
-            n += run_dead_sid_cases(impl, out) - 1
+        try:
+            if what == 'post':
+                run_post_case(impl, case, out)
+            elif what == 'ws':
+                run_ws_case(impl, case, out)
+            else:
+                n += run_dead_sid_cases(impl, out) - 1
+        except report.Livelock as e:
+            out.append(report.livelock_violation(impl, e, {'impl': impl, 'case': case}))
         n += 1
     return [v.to_json() for v in out[:400]], n, len(out)
 
